@@ -795,7 +795,7 @@ func genCase1(r *hx.Rand) caseT {
 		return c
 	}
 	c.Src = genSrc(r, ct.Shapes[c.Tag], c.Tag, c.Opts, &c.NT, r.Range(3, 9))
-	if (c.Tag == 0 || c.Tag == 2) && !c.AllErrors && r.Chance(1, 3) {
+	if (c.Tag == 0 || c.Tag == 2) && r.Chance(1, 3) {
 		// one nested struct field of the top level given as a JSON value under its own key
 		var tops []structKey
 		for _, sk := range ct.Shapes[c.Tag].Structs {
